@@ -1004,14 +1004,11 @@ def _int_to_bv(x, w):
             raise ValueError("byte must be in range(0, 256)")
         return bvv(x, w)
     if isinstance(x, SInt):
-        if x.bv is not None:
-            bw = x.bv.size()
-            if bw > w and not ctx().decide(z3.ULT(x.bv, 1 << w)):
-                raise ValueError("byte must be in range(0, 256)")
-            return x.bv if bw == w else (z3.Extract(w - 1, 0, x.bv) if bw > w else z3.ZeroExt(w - bw, x.bv))
-        if not ctx().decide(z3.And(x.e >= 0, x.e < (1 << w))):
+        from .core import sand
+
+        if not bool(sand(x >= 0, x < (1 << w))):
             raise ValueError("byte must be in range(0, 256)")
-        return z3.Int2BV(x.e, w)
+        return x.low_bits(w)
     raise TypeError(x)
 
 
